@@ -40,11 +40,7 @@ impl Read for Chunky<'_> {
         }
         let n: usize = kani::any();
         kani::assume(n >= 1 && n <= max);
-        let mut i = 0;
-        while i < n {
-            buf[i] = self.data[self.pos + i];
-            i += 1;
-        }
+        buf[..n].copy_from_slice(&self.data[self.pos..self.pos + n]);
         self.pos += n;
         Ok(n)
     }
@@ -107,22 +103,26 @@ impl BufRead for ChunkyBuf<'_> {
     }
 }
 
-/// What a `FaultySink` is allowed to do.
+/// What a `FaultySink` does. Call indices count `write` calls from 0; `u32::MAX` = never.
+/// Harnesses pass CONCRETE indices (one instance per index, or a small loop): with a symbolic
+/// index every call site carries a symbolic io::Error whose drop glue CBMC must explore
+/// (measured: 576 s symbolic vs 7.5 s concrete for one 15-call frame). Data and the short-write
+/// length stay symbolic.
 #[derive(Clone, Copy)]
 pub struct Faults {
-    /// fail permanently at this `write` call index (0-based); `u32::MAX` = never
+    /// fail permanently from this call on
     pub fail_at: u32,
-    /// accept solver-chosen short prefixes
-    pub short: bool,
-    /// number of `Interrupted` results that may be injected
-    pub interrupts: u8,
+    /// this call accepts only the first byte of its buffer (a short write)
+    pub short_at: u32,
+    /// this call returns ErrorKind::Interrupted (once)
+    pub interrupt_at: u32,
 }
 
 impl Faults {
     pub const NONE: Self = Self {
         fail_at: u32::MAX,
-        short: false,
-        interrupts: 0,
+        short_at: u32::MAX,
+        interrupt_at: u32::MAX,
     };
 }
 
@@ -133,6 +133,8 @@ pub struct FaultySink<const N: usize> {
     pub calls: u32,
     pub faults: Faults,
     pub failed: bool,
+    pub shorted: bool,
+    pub interrupted: bool,
     pub flushes: u32,
 }
 
@@ -144,6 +146,8 @@ impl<const N: usize> FaultySink<N> {
             calls: 0,
             faults,
             failed: false,
+            shorted: false,
+            interrupted: false,
             flushes: 0,
         }
     }
@@ -161,26 +165,21 @@ impl<const N: usize> Write for FaultySink<N> {
             self.failed = true;
             return Err(io::Error::from(io::ErrorKind::BrokenPipe));
         }
-        if self.faults.interrupts > 0 && kani::any::<bool>() {
-            self.faults.interrupts -= 1;
+        if k == self.faults.interrupt_at {
+            self.interrupted = true;
             return Err(io::Error::from(io::ErrorKind::Interrupted));
         }
         if src.is_empty() {
             return Ok(0);
         }
         let mut n = src.len();
-        if self.faults.short {
-            let m: usize = kani::any();
-            kani::assume(m >= 1 && m <= src.len());
-            n = m;
+        if k == self.faults.short_at && src.len() > 1 {
+            n = 1; // shortest possible partial write (concrete: keeps control flow concrete)
+            self.shorted = true;
         }
         // the sink array is sized by the harness to hold everything a correct writer emits
         assert!(self.len + n <= N, "harness sink too small");
-        let mut i = 0;
-        while i < n {
-            self.buf[self.len + i] = src[i];
-            i += 1;
-        }
+        self.buf[self.len..self.len + n].copy_from_slice(&src[..n]);
         self.len += n;
         Ok(n)
     }
@@ -212,11 +211,7 @@ impl<const N: usize> SliceSink<N> {
 impl<const N: usize> Write for SliceSink<N> {
     fn write(&mut self, src: &[u8]) -> io::Result<usize> {
         assert!(self.len + src.len() <= N, "harness sink too small");
-        let mut i = 0;
-        while i < src.len() {
-            self.buf[self.len + i] = src[i];
-            i += 1;
-        }
+        self.buf[self.len..self.len + src.len()].copy_from_slice(src);
         self.len += src.len();
         Ok(src.len())
     }
